@@ -222,13 +222,16 @@ static void converge_run(Json& js, vh::Rng& rng) {
         coeffs = [f] { return f->coeffs(); };
         N = (long)(40.0 * len / (mu * (2 - mu))) + 2000;
     } else {
-        const double lam = 0.9 + 0.099 * rng.unif(), load = std::pow(10.0, -2 + 6 * rng.unif());
+        const double lam = (rng.range(0, 2) == 0) ? 0.9 + 0.03 * rng.unif() : 0.9 + 0.099 * rng.unif(), load = std::pow(10.0, -2 + 6 * rng.unif());
         p1 = lam, p2 = load;
         auto f = std::make_shared<RlsFilter<T>>(len, lam, load);
         proc = [f](const base_array<T>& x, const base_array<T>& d) { auto r = f->process(x, d); return std::make_pair(r.y, r.e); };
         coeffs = [f] { return base_array<T>(f->coeffs()); };
         // the regulariser lambda^k / load must have decayed: lambda^N / load <= 1e-9
         N = (long)((std::log(1e9 / std::min(load, 1.0)) + 5) / -std::log(lam)) + 60 * len;
+        if (lam < 0.93 && len <= 16) {
+            N = 12000;   // a long uninterrupted adaptation with strong forgetting: lambda^-k leaves the double range, the filter must not
+        }
     }
     N = std::min<long>(N, 60000);
     std::vector<T> xs;
